@@ -168,17 +168,38 @@ def run(tier, seed):
     import kani_run
     import kcheck
     harnesses = ["json_char_len1", "json_char_len2", "json_char_len3", "json_char_len4", "witness_json_reaches_assert"]
-    krun = kani_run.KaniRun("buildfmt", harnesses, jobs=5, timeout_s=1800 if tier == "quick" else 3600)
+    two = ["json_chars_1_1", "json_chars_1_2", "json_chars_2_1", "json_chars_1_3", "json_chars_3_1", "json_chars_1_4", "json_chars_4_1"]
+    # the loop over s.chars() in write_json_string gets its own bound (characters + 1): CBMC cannot see the width of a
+    # symbolic character, with the global bound every match arm is explored 9 times; unwinding assertions stay on
+    krun = kani_run.KaniRun("buildfmt", harnesses, jobs=5, timeout_s=1800 if tier == "quick" else 3600, unwindset={"17write_json_string": 2})
     rc_g = gcheck.run_property(
         "C11", tier, seed, cases_for(tier, seed), "reference",
         functions_encoded=["generated accessors (every index_translations::<N, I> read resolved through the generated STRINGS tables)",
                            "leptos_i18n_build::TranslationsInfos::get_translations / translations_formatter / write_to_dir (run concretely, compared)"],
         bounds="project families of C01 (literals, duplicates, subkeys, namespaces, > 26 pieces), C03 (defaulted locales), C06 (foreign keys duplicating strings) + 2 projects whose strings are quotes, backslashes, control characters, no-break / zero-width spaces, astral characters, `</script>`; decided by z3: the text read at every index equals the source literal for every locale; concrete side conditions: N == table length, I < N, exported table == baked table, exported text and written file parse as JSON to the same strings.",
         extra_key_check=_extra, post=post)
+    kw = dict(functions=["leptos_i18n_build::<impl Display for TranslationsFormatter>::fmt", "write_json_string"],
+              assumptions=["decoder in the harness implements RFC 8259 string grammar (escapes \\\" \\\\ \\/ \\b \\f \\n \\r \\t \\uXXXX, no raw control characters)",
+                           "per-loop bound for the loop over s.chars() through --unwindset (characters + 1); all other loops unwind 9 / 15; unwinding assertions on"])
     rc_k, cov = kcheck.finish(
         "C11", krun, ["witness_json_reaches_assert"],
-        bounds="impl Display for TranslationsFormatter (+ write_json_string) over one string of exactly one character: every Unicode scalar value, one harness per UTF-8 length class (1..4 bytes, string length concrete); output <= 16 bytes; unwind 9 with unwinding assertions. Two-character strings were tried (10 GB / > 11 min per length pair, not finished) and are outside the claim; several strings per table likewise.",
-        functions=["leptos_i18n_build::<impl Display for TranslationsFormatter>::fmt", "write_json_string"],
-        assumptions=["decoder in the harness implements RFC 8259 string grammar (escapes \\\" \\\\ \\/ \\b \\f \\n \\r \\t \\uXXXX, no raw control characters)"])
+        bounds="impl Display for TranslationsFormatter (+ write_json_string) over one string of exactly one character: every Unicode scalar value, one harness per UTF-8 length class (1..4 bytes, string length concrete); output <= 16 bytes", **kw)
+    if krun.unwindset is None:
+        # the function whose loop gets its own bound is gone from /repo's tree: the two-character harnesses would need
+        # ~10 GB each with the global bound; no verdict from them
+        print("INCONCLUSIVE property=C11 no loop of `write_json_string` in the goto binary: two-character harnesses not run")
+        rc_k2, cov2 = 2, {"harnesses": {}, "harnesses_successful": 0, "solver_s": 0, "violations": [], "bounds": "two-character harnesses not run", "wall_s": 0}
+    else:
+        krun2 = kani_run.KaniRun("buildfmt", two, jobs=len(two), timeout_s=2400 if tier == "quick" else 5400, unwindset={"17write_json_string": 3})
+        rc_k2, cov2 = kcheck.finish(
+            "C11", krun2, [],
+            bounds="one string of exactly two characters of which at least one is ASCII (UTF-8 lengths 1+1, 1+2, 2+1, 1+3, 3+1, 1+4, 4+1: every such pair)", **kw)
+    cov["two_characters"] = cov2
+    cov["harnesses"] = dict(cov["harnesses"], **cov2["harnesses"])
+    cov["harnesses_successful"] += cov2["harnesses_successful"]
+    cov["solver_s"] = round(cov["solver_s"] + cov2["solver_s"], 1)
+    cov["violations"] = cov["violations"] + cov2["violations"]
+    cov["bounds"] += "; " + cov2["bounds"] + ". Longer strings and several strings per table are outside the solver's claim (covered concretely by the export comparison)."
+    rc_k = 1 if 1 in (rc_k, rc_k2) else max(rc_k, rc_k2)
     kcheck.merge_evidence("C11", "kani", cov, len(cov["violations"]))
     return 1 if 1 in (rc_g, rc_k) else max(rc_g, rc_k)
